@@ -1,39 +1,54 @@
 import BoxoModel.C07.Dump
+import BoxoModel.C07.Blocks
 /-! Line-protocol driver for C07 (see /verif/docs/HOWTO.md).
 op:  imp <bal|tri> <w> <raw 0|1> <cidver> <hash> <mode> <mtime: sec.ns | -> <s | z<k>> <hex>...
      (`s`: scripted splitter, one hex token per chunk; `z<k>`: size-<k> splitter over one hex token)
+     blocks <hex cid>...      the CIDs (cid.Bytes()) of all nodes of the DAG imported last, in pre-order
 out: dump of the DAG, root first:  R(hex) | P(type;filesize;datahex;blocksizes;mode;mtime)[children…]
+     for `blocks`: the bytes of every block in pre-order (hex, comma separated), from the C11 / C18 encoders
 Run: `lake env lean --run Drivers/C07.lean < ops.txt > model.out` -/
 open C07 FileTree
 
 namespace C07D
 
-def runImp (lay w raw mode mtime spec : String) (toks : List String) : String :=
+structure St where
+  bcfg : BlockCfg := { raw := false, leafType := 2 }
+  out : Option Out := none
+
+def runImp (lay w raw mode mtime spec : String) (toks : List String) : St × String :=
   match w.toNat?, mode.toNat?, parseMtime mtime, parseChunks spec toks with
   | some w, some mode, some mtime, some cs =>
     let cfg : Cfg := { w := w, rawLeaves := raw == "1", mode := mode, mtime := mtime }
     let res := if lay == "bal" then balancedLayout cfg cs else trickleLayout cfg cs
+    let bc : BlockCfg := { raw := cfg.rawLeaves, leafType := if lay == "bal" then 2 else 0 }
     match res with
-    | none => "diverges"
-    | some o => dump cfg.rawLeaves (if lay == "bal" then "F" else "W") o.attrs o.root
-  | _, _, _, _ => "bad-op"
+    | none => ({ bcfg := bc }, "diverges")
+    | some o => ({ bcfg := bc, out := some o }, dump cfg.rawLeaves (if lay == "bal" then "F" else "W") o.attrs o.root)
+  | _, _, _, _ => ({}, "bad-op")
 
-def step (line : String) : String :=
+def step (st : St) (line : String) : St × String :=
   match (line.trimAscii.toString.splitOn " ").filter (· ≠ "") with
-  | ["case", n] => s!"case {n}"
-  | ["end"] => "end"
+  | ["case", n] => ({}, s!"case {n}")
+  | ["end"] => ({}, "end")
   | "imp" :: lay :: w :: raw :: _cidv :: _hash :: mode :: mtime :: spec :: toks =>
     runImp lay w raw mode mtime spec toks
-  | _ => "bad-op"
+  | "blocks" :: cids =>
+    match st.out, cids.mapM unhex with
+    | some o, some cs =>
+      let r := blocksOf st.bcfg o.attrs o.root cs
+      (st, ",".intercalate (r.blocks.map hex))
+    | _, _ => (st, "bad-op")
+  | _ => (st, "bad-op")
 
 end C07D
 
-partial def loop (h : IO.FS.Stream) (out : IO.FS.Stream) : IO Unit := do
+partial def loop (h : IO.FS.Stream) (out : IO.FS.Stream) (st : C07D.St) : IO Unit := do
   let line ← h.getLine
   if line.isEmpty then return ()
-  out.putStrLn (C07D.step line)
-  loop h out
+  let (st', o) := C07D.step st line
+  out.putStrLn o
+  loop h out st'
 
 def main : IO Unit := do
   let out ← IO.getStdout
-  loop (← IO.getStdin) out
+  loop (← IO.getStdin) out {}
